@@ -32,6 +32,8 @@ func vTimeoutOpts(to string) []Option {
 		return []Option{WithTimeout(30 * time.Second)}
 	case "z":
 		return []Option{WithTimeout(0)}
+	case "q":
+		return []Option{WithTimeout(80 * time.Millisecond)}
 	}
 	return nil
 }
